@@ -151,6 +151,10 @@ class CoroDriver:
                 for co in ctx.cos:
                     if co.life != 'idle':
                         ops.append(('kill', co.cid))
+                    elif (co.started_ever and not co.value_due
+                          and co.seg < len(co.script)):
+                        # killed before it finished: may be started again
+                        ops.append(('start', co.cid))
         for dt in self.dts:
             ops.append(('process', dt))
         return ops
